@@ -49,6 +49,8 @@ def generate(prop, seed, tier):
         G.add_closure_nt(spec, g, 'small')
     if g.random() < 0.15:
         G.add_unproductive_cycle(spec, g)
+    if g.random() < 0.3:
+        G.constant_factors(spec, g)
     cfgs = []
     for _ in range(g.randrange(6, 10)):
         sem = g.choice(['real', 'real', 'real', 'log', 'log', 'viterbi', 'bool'])
